@@ -427,6 +427,18 @@ def norm_guard(t, pol):
     return t, pol
 
 
+_FLIP = {ast.NotIn: ast.In, ast.IsNot: ast.Is, ast.NotEq: ast.Eq}
+
+
+def norm_compare(t, pol):
+    """norm_guard plus: `a not in b` -> (`a in b`, flipped), likewise `is not`, `!=`."""
+    t, pol = norm_guard(t, pol)
+    if isinstance(t, ast.Compare) and len(t.ops) == 1 and type(t.ops[0]) in _FLIP:
+        t = ast.Compare(left=t.left, ops=[_FLIP[type(t.ops[0])]()], comparators=t.comparators)
+        pol = not pol
+    return t, pol
+
+
 class RowSig:
     def __init__(self):
         self.guards = []    # (test node, polarity)
